@@ -153,6 +153,7 @@ LedgerReport simalloc_end();       // deactivates; reports what is still live
 LedgerReport simalloc_peek();      // while active
 void simalloc_forget_all();        // after a verdict: stop tracking (blocks stay allocated)
 void stack_scribble(int mode, uint64_t seed);
+void stack_scribble_small(int mode, uint64_t seed);
 int simalloc_task();               // current task id for ledger (0 in single-task engines)
 void simalloc_set_task(int t);
 
